@@ -22,13 +22,13 @@ def _t(mod, *names):
     return [(n, "FlooVerif.Props." + mod) for n in names]
 
 THEOREMS = {
-    "C01": _t("C01", "FlooVerif.C01.holds_iff_spec", "FlooVerif.C01.matching_stable") +
+    "C01": _t("HwTieShape", "FlooVerif.HwTie.rtl_shape") + _t("C01", "FlooVerif.C01.holds_iff_spec", "FlooVerif.C01.matching_stable") +
            _t("C01U", "FlooVerif.C01U.sam_decodes_owner", "FlooVerif.C01U.overlap_rejected", "FlooVerif.C01U.rule_origin") +
            [("FlooVerif.checkNoOverlap_iff", "FlooVerif.Lemmas.RouteMapLemmas")],
-    "C02": _t("C02", "FlooVerif.C02.arrives_of_potential", "FlooVerif.C02.trace_nodup", "FlooVerif.C02.walk_fuel_mono") +
+    "C02": _t("HwTieShape", "FlooVerif.HwTie.rtl_shape") + _t("C02", "FlooVerif.C02.arrives_of_potential", "FlooVerif.C02.trace_nodup", "FlooVerif.C02.walk_fuel_mono") +
            _t("C02U", "FlooVerif.C02U.tables_deliver", "FlooVerif.C02U.next_is_closer", "FlooVerif.C02U.remaining_decreases"),
-    "C03": _t("C03", "FlooVerif.C03.pack_unpack", "FlooVerif.C03.pack_lt", "FlooVerif.C03.port_fits"),
-    "C04": _t("C04", "FlooVerif.C04.lockstep", "FlooVerif.C04.step_closer", "FlooVerif.C04.no_y_to_x_turn",
+    "C03": _t("HwTieSrc", "FlooVerif.HwTie.src_agrees", "FlooVerif.HwTie.src_is_srcPop") + _t("HwTieShape", "FlooVerif.HwTie.rtl_shape") + _t("C03", "FlooVerif.C03.pack_unpack", "FlooVerif.C03.pack_lt", "FlooVerif.C03.port_fits"),
+    "C04": _t("HwTie", "FlooVerif.HwTie.xy_agrees") + _t("HwTieShape", "FlooVerif.HwTie.rtl_shape") + _t("C04", "FlooVerif.C04.lockstep", "FlooVerif.C04.step_closer", "FlooVerif.C04.no_y_to_x_turn",
               "FlooVerif.C04.column_decision", "FlooVerif.C04.allowed_y_continuation", "FlooVerif.C04.dor_reaches") +
            _t("C07XY", "FlooVerif.C07U.xy_ids_fit") +
            _t("C04U", "FlooVerif.C04U.array_is_grid", "FlooVerif.C04U.wiring_agrees_with_move"),
